@@ -19,6 +19,8 @@ PROGRAMS = {
     "badput": {1: [("badput", "f", "c1", "c2")], 2: [("put", "f", "c1", "c3"), ("get", "f")]},
     "create": {1: [("put", "g", None, "c2")], 2: [("put", "g", None, "c2"), ("delete", "g", "c2")]},
     "badsame": {1: [("badput", "f", "c1", "c2")], 2: [("put", "f", "c1", "c2"), ("get", "f")]},
+    "writeback": {1: [("put", "f", "c1", "c2")], 2: [("put", "f", "c1", "c1"), ("get", "f")]},
+    "delwb": {1: [("delete", "f", "c1")], 2: [("put", "f", "c1", "c1"), ("get", "f")]},
 }
 # programs explored by the controller's own search only
 EXTRA = {
@@ -30,6 +32,27 @@ EXTRA = {
 }
 CASRACE3 = {1: [("put", "f", "c1", "c2")], 2: [("put", "f", "c2", "c3")], 3: [("delete", "f", "c2"), ("get", "f")]}
 LIST_RACE = {1: [("put", "f", "c1", "c2"), ("put", "g", "c1", "c3")], 2: [("list",)]}
+
+
+def random_program(rng):
+    """a seeded request program: 2-3 servers, 1-3 requests each, two paths, any expected / new content combination
+    (write-backs, creates over existing files, deletes of absent files, ...); decided by the linearization search alone"""
+    prog = {}
+    for sid in range(1, rng.choice([2, 2, 3]) + 1):
+        reqs = []
+        for _ in range(rng.randint(1, 3)):
+            path = rng.choice(["f", "f", "g"])
+            r = rng.random()
+            if r < 0.55:
+                reqs.append(("put", path, rng.choice([None, "c1", "c1", "c2", "c3"]), rng.choice(["c1", "c2", "c3"])))
+            elif r < 0.75:
+                reqs.append(("delete", path, rng.choice([None, "c1", "c1", "c2", "c3"])))
+            elif r < 0.93:
+                reqs.append(("get", path))
+            else:
+                reqs.append(("badput", path, rng.choice([None, "c1", "c2"]), rng.choice(["c2", "c3"])))
+        prog[sid] = reqs
+    return prog
 
 
 def init_worker(copia, shim, root, hashes):
